@@ -826,6 +826,19 @@ def _concat_now(a, b):
     return AL(z3.simplify(a.n + b.n), k, present, value, 'concatenation')
 
 
+def make_adict(pairs, enum_src=None):
+    d = ADict(pairs)
+    src_list = enum_src if enum_src is not None else pairs.__dict__.get('zip_index_of')
+    if src_list is not None and not pairs.void and pairs.dense and isinstance(pairs.value, tuple) and len(pairs.value) == 2:
+        # {x: i for i, x in enumerate(L)} / dict(zip(L, count())): the dictionary is the position map of L
+        kval, vval = pairs.value
+        _, x_at = src_list.get(pairs.kvar)
+        vv = force_nofork_scalar(vval)
+        if isinstance(vv, SNum) and vv.is_int and z3.simplify(vv.re - pairs.kvar).eq(z3.IntVal(0)) and z3.is_true(z3.simplify(eq_nofork(kval, x_at))):
+            d.index_map_of = src_list
+    return d
+
+
 def comprehension(interp, src, g, e, env, mod, kind):
     from .interp import Env
     src0 = force(src)
@@ -846,15 +859,7 @@ def comprehension(interp, src, g, e, env, mod, kind):
     if kind == 'set':
         return ASet(out)
     if kind == 'dict':
-        d = ADict(out)
-        src_list = al.__dict__.get('enum_of')
-        if src_list is not None and not out.void and out.dense and isinstance(out.value, tuple) and len(out.value) == 2:
-            # {x: i for i, x in enumerate(L)}: the dictionary is the position map of L
-            kval, vval = out.value
-            _, x_at = src_list.get(out.kvar)
-            vv = force_nofork_scalar(vval)
-            if isinstance(vv, SNum) and vv.is_int and z3.simplify(vv.re - out.kvar).eq(z3.IntVal(0)) and z3.is_true(z3.simplify(eq_nofork(kval, x_at))):
-                d.index_map_of = src_list
+        d = make_adict(out, al.__dict__.get('enum_of'))
         return d
     return out
 
@@ -993,7 +998,34 @@ def enumerate_(it, start=0):
     return out
 
 
+class CountVal:
+    """itertools.count(start, step): only usable as a partner in zip()."""
+    def __init__(self, start=0, step=1):
+        self.start, self.step = start, step
+
+
 def zip_(its):
+    finite = [i for i in its if not isinstance(i, CountVal)]
+    if len(finite) != len(its):
+        als = [as_al(i).positional() for i in finite]
+        if any(a.void for a in als):
+            return AL(z3.IntVal(0), fresh_index('g'), True, None, 'zip')
+        g = fresh_index('g')
+        n = als[0].n
+        for a in als[1:]:
+            if not a.n.eq(n):
+                n = z3.If(a.n < n, a.n, n)
+        vals, fin = [], iter(als)
+        for i in its:
+            if isinstance(i, CountVal):
+                vals.append(SNum(g) if (isinstance(i.start, int) and i.start == 0 and isinstance(i.step, int) and i.step == 1)
+                            else I().binop('+', i.start, I().binop('*', i.step, SNum(g))))
+            else:
+                vals.append(next(fin).get(g)[1])
+        out = AL(z3.simplify(n), g, True, tuple(vals), 'zip')
+        if len(its) == 2 and isinstance(its[1], CountVal) and isinstance(its[1].start, int) and its[1].start == 0 and its[1].step == 1:
+            out.zip_index_of = als[0]
+        return out
     als = [as_al(i).positional() for i in its]
     if any(a.void for a in als):
         return AL(z3.IntVal(0), fresh_index('g'), True, None, 'zip')
@@ -1231,3 +1263,55 @@ def _rebind(old, new, envs, roots):
             for name, v in list(r.attrs.items()):
                 if v is old:
                     r.attrs[name] = new
+
+
+
+class ACounter:
+    """collections.Counter of an abstract list: element -> multiplicity.  Supported: iteration over `.values()` / `.items()` (one entry
+    per distinct element, with the multiplicity as an uninterpreted count characterised by ">= 1" and ">= 2 iff the element occurs
+    at two positions"), `len`, lookup of a key."""
+
+    def __init__(self, al):
+        self.al = al
+        self.firsts = al.first_occurrences()
+        self._mult = None
+
+    def _multiplicities(self):
+        if self._mult is None:
+            fo = self.firsts
+            fo.n                                   # materialise
+            k = fo.kvar
+            mult = sk_fun('mult')
+            j = fresh_index()
+            pj, vj = self.al.get(j)
+            _, vk = self.al.get(k)
+            again = z3.Exists([j], z3.And(j >= 0, j < self.al.n, j != k, pj, eq_nofork(vj, vk)))
+            CTX.path.assume(forall_k(k, fo.guards(k), z3.And(mult(k) >= 1, (mult(k) >= 2) == again)))
+            self._mult = AL(fo.n, k, fo.present, SNum(mult(k)), 'multiplicities')
+        return self._mult
+
+    def len_value(self):
+        return SNum(self.firsts.len_term())
+
+    @property
+    def length(self):
+        return self.firsts.len_term()
+
+    def contains(self, x):
+        return self.al.contains(x)
+
+    def attr(self, interp, name):
+        if name == 'values':
+            return Builtin('Counter.values', lambda a, k: self._multiplicities())
+        if name == 'keys':
+            return Builtin('Counter.keys', lambda a, k: self.firsts)
+        if name == 'items':
+            def items(a, k):
+                m = self._multiplicities()
+                return AL(m.n, m.kvar, m.present, (self.firsts.value, m.value), 'Counter.items')
+            return Builtin('Counter.items', items)
+        raise OutOfSubset(f'Counter.{name} on an abstract sequence')
+
+
+def counter_of(al):
+    return ACounter(al)
